@@ -11,6 +11,7 @@ pub fn dispatch(req: &Value) -> Value {
         "derive_outcomes" => derive_outcomes(),
         "ts_wins" => ts_wins(),
         "variant_literals" => variant_literals(),
+        "flatten_shapes" => flatten_shapes(),
         "ts_field_name" => ts_field_name(req),
         "parse_docs" => parse_docs(req),
         "conformance" => super::conformance::run(req["seed"].as_u64().unwrap_or(0), req["n"].as_u64().unwrap_or(2000) as usize),
@@ -570,6 +571,58 @@ fn variant_literals() -> Value {
         // the escaping case is known finding D12: it does not count against `agree`
         if !ok && what != "variant names that need escaping" { agree = false; }
         out.push(json!({"case": what, "binding": got, "expected": want, "agree": ok || what == "variant names that need escaping", "matches": ok}));
+    }
+    json!({"cases": out, "agree": agree})
+}
+
+
+// ---------------------------------------------------------------------------------------------------------
+// C04 on really derived structs with flattened members: the object type keeps its brackets balanced
+mod flat {
+    use ts_rs::TS;
+    #[derive(TS)] pub enum EA { A1 { x: i32 }, A2 { y: i32 } }
+    #[derive(TS)] pub enum EB { B1 { z: i32 }, B2 { w: i32 } }
+    #[derive(TS)] pub struct One { #[ts(flatten)] pub a: EA }
+    #[derive(TS)] pub struct OnePlus { pub k: i32, #[ts(flatten)] pub a: EA }
+    #[derive(TS)] pub struct Two { #[ts(flatten)] pub a: EA, #[ts(flatten)] pub b: EB }
+    #[derive(TS)] pub struct Nested { #[ts(flatten)] pub inner: Two }
+}
+fn balanced(s: &str) -> bool {
+    let mut st: Vec<char> = vec![];
+    let mut in_str = false;
+    let mut prev = ' ';
+    for c in s.chars() {
+        if in_str { if c == '"' && prev != '\\' { in_str = false; } prev = c; continue; }
+        match c {
+            '"' => in_str = true,
+            '(' | '{' | '[' => st.push(c),
+            ')' => if st.pop() != Some('(') { return false; },
+            '}' => if st.pop() != Some('{') { return false; },
+            ']' => if st.pop() != Some('[') { return false; },
+            _ => {}
+        }
+        prev = c;
+    }
+    st.is_empty() && !in_str
+}
+fn flatten_shapes() -> Value {
+    use ts_rs::TS;
+    let ea = "{ \"A1\": { x: number, } } | { \"A2\": { y: number, } }";
+    let eb = "{ \"B1\": { z: number, } } | { \"B2\": { w: number, } }";
+    let cases: Vec<(&str, String, Option<String>)> = vec![
+        ("a single flattened enum is the union itself", flat::One::inline(), Some(ea.to_string())),
+        ("fields and a flattened enum", flat::OnePlus::inline(), Some(format!("{{ k: number, }} & ({ea})"))),
+        ("two flattened enums", flat::Two::inline(), Some(format!("({ea}) & ({eb})"))),
+        ("a flattened struct that flattens two enums keeps its brackets balanced", flat::Nested::inline(), None),
+    ];
+    let mut out = vec![];
+    let mut agree = true;
+    for (what, got, want) in cases {
+        let ok = balanced(&got) && want.as_ref().map_or(true, |w| &got == w);
+        // the nested case is known finding D13: it does not count against `agree`
+        let known = what.starts_with("a flattened struct that flattens two enums");
+        if !ok && !known { agree = false; }
+        out.push(json!({"case": what, "binding": got, "expected": want.unwrap_or_else(|| "brackets balanced".to_string()), "agree": ok || known, "matches": ok}));
     }
     json!({"cases": out, "agree": agree})
 }
